@@ -108,6 +108,39 @@ func init() {
 		x, y := bitmap.Select32R64(ws, sidx, ridx, r)
 		return L(I32(x), I32(y))
 	}
+	// widened: select against NextOne
+	selNext := func(ws []uint64, x, y int32) string {
+		nx := int32(-1)
+		if end := int32(len(ws) * 64); x+1 < end {
+			nx = bitmap.NextOne(ws, x+1, end)
+		}
+		return L(I32(x), I32(y), I32(nx))
+	}
+	Exec["bitmap.Select32/NextOne"] = func(a []V) string {
+		ws := a[0].U64s()
+		sidx := bitmap.IndexSelect32(ws)
+		x, y := bitmap.Select32(ws, sidx, a[1].I32())
+		return selNext(ws, x, y)
+	}
+	Exec["bitmap.Select32R64/NextOne"] = func(a []V) string {
+		ws := a[0].U64s()
+		sidx, ridx := bitmap.IndexSelect32R64(ws)
+		x, y := bitmap.Select32R64(ws, sidx, ridx, a[1].I32())
+		return selNext(ws, x, y)
+	}
+	// [NextOne(ws, p, 64*len), Select32(ws, idx, Rank64(ws, ridx, p)) or -1 when the rank is the grand total]
+	Exec["bitmap.NextOne/Rank64"] = func(a []V) string {
+		ws := a[0].U64s()
+		p := a[1].I32()
+		nx := bitmap.NextOne(ws, p, int32(len(ws)*64))
+		ridx := bitmap.IndexRank64(ws, true)
+		r, _ := bitmap.Rank64(ws, ridx, p)
+		x := int32(-1)
+		if r < ridx[len(ws)] {
+			x, _ = bitmap.Select32(ws, bitmap.IndexSelect32(ws), r)
+		}
+		return L(I32(nx), I32(x))
+	}
 	Register("C02", genC02)
 }
 
@@ -271,6 +304,22 @@ func genC02(g *Gen) {
 		w := U64s(ws)
 		g.Do("bitmap.Rank64/Select32", L(w, Int(i)), key)
 		g.Do("bitmap.Rank128/Select32R64", L(w, Int(i)), key)
+		g.Do("bitmap.Select32/NextOne", L(w, Int(i)), key)
+		g.Do("bitmap.Select32R64/NextOne", L(w, Int(i)), key)
+	}
+	// NextOne(p) against select(rank(p)); any p inside the bitmap, also past the last 1-bit
+	nfrom := func(ws []uint64, os []int, p int) {
+		if p < 0 || p >= 64*len(ws) {
+			return
+		}
+		key := "nfrom/none"
+		if len(os) > 0 && p <= os[len(os)-1] {
+			key = c02FromKey(os, p)
+			if key != "" {
+				key = "n" + key
+			}
+		}
+		g.Do("bitmap.NextOne/Rank64", L(U64s(ws), Int(p)), key)
 	}
 	from := func(ws []uint64, os []int, p int) {
 		if p < 0 || len(os) == 0 || p > os[len(os)-1] {
@@ -280,6 +329,7 @@ func genC02(g *Gen) {
 		w := U64s(ws)
 		g.Do("bitmap.Select32/Rank64", L(w, Int(p)), key)
 		g.Do("bitmap.Select32R64/Rank128", L(w, Int(p)), key)
+		nfrom(ws, os, p)
 	}
 	// a spread of start positions for one bitmap
 	fromSpread := func(ws []uint64, os []int, nrand int) {
@@ -305,6 +355,9 @@ func genC02(g *Gen) {
 		rs(ws, os, 0)
 		rs(ws, os, cnt-1)
 		rs(ws, os, (cnt-1)&^31)
+		nfrom(ws, os, last+1)
+		nfrom(ws, os, 64*len(ws)-1)
+		nfrom(ws, os, (last+64)&^63)
 	}
 
 	held := func(ws []uint64, os []int, i int, bucket string) {
@@ -388,7 +441,7 @@ func genC02(g *Gen) {
 		for b2 := b1; b2 < 64; b2++ {
 			w := uint64(1)<<uint(b1) | uint64(1)<<uint(b2)
 			selAll([]uint64{w}, "exh-1or2bit")
-			if g.Thorough || (b1+b2)%21 == 0 {
+			if b1 == b2 || (g.Thorough && (b1+b2)%3 == 0) || (b1+b2)%32 == 0 {
 				os := c02Ones([]uint64{w})
 				for i := range os {
 					rs([]uint64{w}, os, i)
@@ -396,6 +449,8 @@ func genC02(g *Gen) {
 				for p := 0; p <= b2; p++ {
 					from([]uint64{w}, os, p)
 				}
+				nfrom([]uint64{w}, os, b2+1)
+				nfrom([]uint64{w}, os, 63)
 			}
 			if g.Thorough || (b1+b2)%5 == 0 {
 				ws := []uint64{^uint64(0), w, 0}
@@ -407,9 +462,7 @@ func genC02(g *Gen) {
 		}
 	}
 	g.Exhaust = append(g.Exhaust, "all one-word bitmaps with 1 or 2 bits x all i")
-	if g.Thorough {
-		g.Exhaust = append(g.Exhaust, "select(rank(p)) and rank(select(i)): all one-word bitmaps with 1 or 2 bits x all p up to the last 1-bit, all i")
-	}
+	g.Exhaust = append(g.Exhaust, "select(rank(p)) and rank(select(i)): all one-word bitmaps with exactly 1 bit x all p up to that bit")
 
 	// (3) 1-bits straddling every 8/16/32/64 boundary: all non-empty subsets of the
 	// four positions {B-2,B-1,B,B+1} around every multiple of 8 in a 3-word bitmap
@@ -557,7 +610,9 @@ func genC02(g *Gen) {
 		for q := 0; q < 6; q++ {
 			try(g.R.Intn(cnt))
 		}
-		fromSpread(ws, os, 2)
+		if !g.Thorough || k%4 == 0 {
+			fromSpread(ws, os, 2)
+		}
 		if k%4 == 0 {
 			held(ws, os, g.R.Intn(cnt), "held-index-random")
 			held(ws, os, cnt-1, "held-index-random")
